@@ -476,6 +476,11 @@ def directed(d):
         [o("split_pieces", 0, p=0.6), sr(2, 0.0, 1.0), o("move_boundaries_to_front", 2), rv(2), o("concatenate", 2, u=3)],
         [sv(0, 1.0), o("remove_samples", 0, idx=[0.0, 0.6]), sf(1, 2.0), o("split_pieces", 1, p=0.5), o("concatenate", 3, u=4)],
         [sr(0, 0.0, 1.0), sf(0, [2.0, 3.0, 0.5, -1.5][:d]), sv(0, [1.0, -2.0, 0.0, 4.0][:d]), sr(0, -1.0, 0.0), sf(0, [-0.5, 1.5, 2.0, 3.0][:d]), rv(0)],
+        # legitimate scaling factors far below numpy's default absolute tolerance (a unit conversion nm -> m; a column of large spread scaled into a unit range):
+        # reverting must still undo them (missed seed C18_9: "factor close to zero" guard with isclose)
+        [sf(0, 1e-9), rv(0)],
+        [sf(0, 1e9), sr(0, 0.0, 1.0), sv(0, 1.0), rv(0)],
+        [sr(0, 0.0, 1.0), sf(0, [1e-9, 2.0, 1e-10, -1e-9][:d]), rv(0)],        # (no shift after the tiny factor: that would lose the digits in floating point)
     ]
 
 
